@@ -20,8 +20,8 @@ pub fn def() -> PropDef {
     panic_policy: PanicPolicy::Count,
     rule: "random triples (A,B,C) of ASCII source trees with consistent leaf maps; for each triple 12 differently built trees are compared pairwise-with-reference on text and on the attribution of every character through map() (file, line, column, name; file and line for columns=false): flat vs typed-nested vs boxed-nested vs added-later concatenation, single-child concat, neutral empty sources, ReplaceSource without / with only empty replacements, CachedSource, boxing; non-trivial = the reference tree has >= 1 mapped and >= 1 unmapped character; distinct = case fingerprint",
     cases: |t| match t {
-      Tier::Quick => 15_000,
-      Tier::Thorough => 300_000,
+      Tier::Quick => 40_000,
+      Tier::Thorough => 500_000,
     },
   }
 }
